@@ -73,7 +73,9 @@ class Janus:
         def coords():
             return b"".join(struct.pack("<6d", p.x, p.y, p.z, p.vx, p.vy, p.vz) for p in sim.particles)
         start = coords()
-        if userflag:
+        if userflag == 3:
+            sim.gravity = "compensated"      # the other direct-summation routine: the force must still be a function of the positions alone
+        elif userflag:
             sim.ri_janus.recalculate_integer_coordinates_this_timestep = 1   # documented: "set to 1 if particles have been modified"
         if userflag == 2:
             # start from a non-initial state: run, modify a particle and ask (once) for recalculation, take one step on the
@@ -101,7 +103,7 @@ class Janus:
                     v1 = getattr(ps[i], a)
                     if struct.pack("<d", v1) != struct.pack("<d", v0):
                         diffs.append((i, a, v0, v1))
-            V.append(("janus:not-bitwise-reversible:order%d:%s" % (order, "userflag" if userflag else "plain"), "after %d steps forward and %d back %d coordinates differ from the initial bits, e.g. particle %d %s: %r -> %r [%s]" % (
+            V.append(("janus:not-bitwise-reversible:order%d:%s" % (order, "compensated" if userflag == 3 else "userflag" if userflag else "plain"), "after %d steps forward and %d back %d coordinates differ from the initial bits, e.g. particle %d %s: %r -> %r [%s]" % (
                 n, n, len(diffs), diffs[0][0], diffs[0][1], diffs[0][2], diffs[0][3], tag)))
         else:
             pint = sim.ri_janus.p_int
@@ -213,6 +215,13 @@ def run(ctx):
                                 if userflag and (which != 0 or scale != 1e-16):
                                     continue
                                 jt.append((order, scale, N, n, which, first, userflag))
+    for order in (2, 4, 6, 8, 10):
+        for scale in (1e-16, 2.0 ** -56):     # |x| <= 9 must stay inside the int64 grid
+            for N in (3, 4):
+                for n in (50, 400):
+                    for which in (0, 1, 2, 3):
+                        for first in (1, -1):
+                            jt.append((order, scale, N, n, which, first, 3))     # 3: compensated gravity
     st = []
     for integ, o in SYM:
         for sysname in ("S3", "S4G", "flyby"):
